@@ -57,7 +57,7 @@ def ft2(data, delta):
             numpy.fft.fft2(
                     numpy.fft.ifftshift(data, axes=(-1,-2))
                     ), axes=(-1,-2)
-            )*delta**2
+            )*delta*delta   # not delta**2: a float32 / integer NumPy scalar would be squared in its own type
 
     return DATA
 
@@ -77,7 +77,7 @@ def ift2(data, delta_f):
             numpy.fft.ifft2(
                     numpy.fft.ifftshift(data, axes=(-1,-2)
                     ), axes=(-1,-2))
-            , axes=(-1,-2)) * (N * delta_f)**2
+            , axes=(-1,-2)) * (N * delta_f) * (N * delta_f)
 
     return DATA
 
@@ -132,7 +132,7 @@ def rft2(data, delta):
             numpy.fft.rfft2(
                     numpy.fft.ifftshift(data, axes=(-1,-2))
                     ), axes=(-1,-2)
-            )*delta**2
+            )*delta*delta
 
     return DATA
 
@@ -153,5 +153,5 @@ def irft2(data, delta_f):
                     numpy.fft.ifftshift(data, axes=(-1,-2)), 
                     axes=(-2,-1)
                     ),
-            axes=(-1,-2)) * (N * delta_f)**2
+            axes=(-1,-2)) * (N * delta_f) * (N * delta_f)
     return DATA
